@@ -87,6 +87,9 @@ pub struct EncDb {
     /// extra pool entries: strings nobody refers to with a positive count
     /// (over-counting), appended at the end
     pub extra_pool_strings: Vec<String>,
+    /// unused pool entries (reference count 0) that still carry text: the
+    /// first is placed in front of all other entries, the rest at the end
+    pub ghost_strings: Vec<String>,
 }
 
 impl EncDb {
@@ -130,11 +133,13 @@ struct Pool {
     index: BTreeMap<String, Vec<usize>>,
     style: PoolStyle,
     counter: usize,
+    /// indices of unused entries that carry text
+    ghosts: std::collections::BTreeSet<usize>,
 }
 
 impl Pool {
     fn new(style: PoolStyle) -> Pool {
-        Pool { entries: Vec::new(), index: BTreeMap::new(), style, counter: 0 }
+        Pool { entries: Vec::new(), index: BTreeMap::new(), style, counter: 0, ghosts: Default::default() }
     }
     /// Returns the 1-based id for a reference to `s`.
     fn intern(&mut self, s: &str) -> u32 {
@@ -360,6 +365,10 @@ pub fn encode_summary(s: &EncSummary, cp: i32) -> Vec<u8> {
 pub fn encode(db: &EncDb) -> Vec<u8> {
     let cp = db.text_cp();
     let mut pool = Pool::new(db.pool_style);
+    if let Some(g) = db.ghost_strings.first() {
+        pool.entries.push(Some((g.clone(), 0)));
+        pool.ghosts.insert(0);
+    }
     let mut streams: Vec<(String, Vec<u8>)> = Vec::new();
     // catalog content
     let vschema = validation_schema();
@@ -401,12 +410,16 @@ pub fn encode(db: &EncDb) -> Vec<u8> {
     for s in &db.extra_pool_strings {
         pool.entries.push(Some((s.clone(), 0)));
     }
+    for g in db.ghost_strings.iter().skip(1) {
+        pool.entries.push(Some((g.clone(), 0)));
+        pool.ghosts.insert(pool.entries.len() - 1);
+    }
     // pool streams
     let mut pool_bytes = Vec::new();
     let header = (db.codepage_id & 0xffff) | if db.long_refs { 0x8000_0000 } else { 0 };
     pool_bytes.extend_from_slice(&header.to_le_bytes());
     let mut data_bytes = Vec::new();
-    for e in &pool.entries {
+    for (ei, e) in pool.entries.iter().enumerate() {
         match e {
             None => pool_bytes.extend_from_slice(&[0, 0, 0, 0]),
             Some((text, rc)) => {
@@ -417,7 +430,8 @@ pub fn encode(db: &EncDb) -> Vec<u8> {
                 } as u16;
                 // an entry nobody refers to must not be written with count 0
                 // and text (that is what "unused" means): give it count 1
-                let rc = if rc == 0 { 1 } else { rc };
+                // (unless it is a deliberate ghost entry)
+                let rc = if pool.ghosts.contains(&ei) { 0 } else if rc == 0 { 1 } else { rc };
                 if b.len() > 0xffff {
                     pool_bytes.extend_from_slice(&0u16.to_le_bytes());
                     pool_bytes.extend_from_slice(&((b.len() >> 16) as u16).to_le_bytes());
